@@ -71,7 +71,7 @@ MATCH_TOL = 3e-2  # pairing radius for contacts of one geom pair (geometry itsel
 
 
 def cases(tier, seed):
-  n = 130 if tier == "quick" else 2600
+  n = 110 if tier == "quick" else 2600
   out = []
   for i in range(n):
     out.append({"id": f"gen{seed}_{i}", "seed": seed * 100000 + i, "mixed": int(i % 4 == 3), "big": 40 if i % 29 == 7 else 0, "weight": 3 if i % 29 == 7 else 1})
